@@ -161,7 +161,7 @@ func runCheck(id, tier, repo, only string, workers int, noNative bool) int {
 	}
 	known := loadKnown()
 	for _, k := range known {
-		if k.Status == "open" && k.Property == id {
+		if k.Status == "open" && k.Property == id && os.Getenv("VERIF_IGNORE_KNOWN") == "" {
 			eng.known[k.ID] = true
 		}
 	}
